@@ -253,6 +253,54 @@ fn main() {
             }
             extra = json!({"delivery_wait_ms_after_the_overrun": waits});
         }
+        // C01: a reporter being replaced while the old one is busy does not turn new traces into no-ops
+        "set-reporter-while-reporting" => {
+            struct Gated(Rep, Arc<AtomicBool>, Arc<AtomicBool>);
+            impl Reporter for Gated {
+                fn report(&mut self, spans: Vec<SpanRecord>) {
+                    if !spans.is_empty() && !self.1.swap(true, Ordering::SeqCst) {
+                        let t = Instant::now();
+                        while !self.2.load(Ordering::SeqCst) && t.elapsed() < Duration::from_secs(20) {
+                            std::thread::sleep(Duration::from_millis(1));
+                        }
+                    }
+                    self.0.report(spans);
+                }
+            }
+            let rep1 = Rep::default();
+            let rep2 = Rep::default();
+            let entered = Arc::new(AtomicBool::new(false));
+            let release = Arc::new(AtomicBool::new(false));
+            fastrace::set_reporter(Gated(rep1.clone(), entered.clone(), release.clone()), Config::default().report_interval(Duration::from_millis(3)));
+            small_trace(0x5E01, "before");
+            if !wait_until(Duration::from_secs(10), || entered.load(Ordering::SeqCst)) {
+                extra = json!({"skipped": "the background collector never called report()"});
+                return;
+            }
+            // the collector is inside report() now; a second set_reporter has to wait for it
+            let r2 = rep2.clone();
+            let helper = std::thread::spawn(move || fastrace::set_reporter(r2, Config::default().report_interval(Duration::from_millis(3))));
+            std::thread::sleep(Duration::from_millis(300));
+            let root = Span::root("during", SpanContext::new(TraceId(0x5E02), SpanId(1)));
+            c();
+            let recording = SpanContext::from_span(&root).is_some();
+            {
+                let _g = root.set_local_parent();
+                let _l = LocalSpan::enter_with_local_parent("during-local");
+            }
+            drop(Span::enter_with_parent("during-child", &root));
+            drop(root);
+            release.store(true, Ordering::SeqCst);
+            helper.join().unwrap();
+            fastrace::flush();
+            std::thread::sleep(Duration::from_millis(20));
+            fastrace::flush();
+            let got = rep1.count(0x5E02) + rep2.count(0x5E02);
+            extra = json!({"root_created_during_the_replacement_was_recording": recording, "its_records_delivered": got, "to_the_old_reporter": rep1.count(0x5E02)});
+            if !recording || got != 3 {
+                panic!("a trace started while a second set_reporter() call was waiting for the collector (busy inside report()): recording = {}, {} of 3 records delivered", recording, got);
+            }
+        }
         // C06 / C17: a LocalCollector started before any reporter exists records like any other
         "early-local-collector" => {
             let lc = LocalCollector::start();
